@@ -119,6 +119,7 @@ func main() {
 	if err := w.loadBaseline(*verif); err != nil {
 		fail(ids, *verif, "tables/functions.json unreadable: "+err.Error())
 	}
+	w.detectRenames()
 	nNew := 0
 	for k := range w.Funcs {
 		if w.isNewName(k) {
